@@ -6,7 +6,7 @@
    inR i p = the point p (normalised coordinates) lies in the half-open box of voxel i. *)
 From Coq Require Import ZArith String Ascii List Bool Permutation Reals Lia.
 From SIDGen Require Generated.
-From SID Require Import Base Str Ids Voxel ZoomCore GenEqZoom Notation.
+From SID Require Import Base Str Ids Voxel ZoomCore GenEqZoom StrSpec Notation GenC10.
 Import ListNotations.
 Open Scope Z_scope.
 
@@ -261,6 +261,76 @@ Theorem C10_delimiter_is_the_generated_constant :
 Proof. exact delimiter_is_generated. Qed.
 Print Assumptions C10_delimiter_is_the_generated_constant.
 
+(* ---- 14. the string layer Str.v, declaratively (theories/StrSpec.v; nothing in Str.v was changed). Rules taken from Go 1.23
+            src/strconv/atoi.go: ParseInt(s, 10, 64) strips ONE leading '+' or '-', then requires one or more bytes '0'..'9' (underscores only
+            when base = 0, which /repo never uses), and the value must fit int64; strconv.Atoi(s) = ParseInt(s, 10, 0) with int = int64 here.
+            These theorems are about the model; the tie to the real strconv/strings functions is the differential run of the entries
+            ParseInt, Atoi, FormatInt, Itoa, Split, Join (DC10.v), whose checkers are the last four theorems ---- *)
+(* Str.parse s = Some z  iff  s = sign ++ body with sign one of "", "+", "-", body one or more bytes 48..57, z = the signed decimal value
+   of body read most significant digit first, and -2^63 <= z < 2^63 *)
+Theorem C10_Str_parse_is_ParseInt_language : forall s z, parse s = Some z <-> ParseInt_accepts s z.
+Proof. exact parse_spec. Qed.
+Print Assumptions C10_Str_parse_is_ParseInt_language.
+Theorem C10_Str_parse_rejects_everything_else : forall s, parse s = None <-> forall z, ~ ParseInt_accepts s z.
+Proof. exact parse_rejects. Qed.
+Print Assumptions C10_Str_parse_rejects_everything_else.
+(* Str.parse is the left-to-right reference scanner (optional sign, digit loop, range check) *)
+Theorem C10_Str_parse_is_reference_scanner : forall s, parse s = parse_ref s.
+Proof. exact parse_is_ref. Qed.
+Print Assumptions C10_Str_parse_is_reference_scanner.
+(* the digit bytes are exactly 48..57 with value byte - 48 (full-width or Arabic-Indic digits are multi-byte and rejected) *)
+Theorem C10_digit_bytes : forall c k, digit_val c = Some k <-> (48 <= nat_of_ascii c <= 57)%nat /\ k = Z.of_nat (nat_of_ascii c) - 48.
+Proof. exact digit_val_spec. Qed.
+Print Assumptions C10_digit_bytes.
+(* Str.print z is canonical for every integer: "0", or a digit 1..9 followed by digits, optionally preceded by "-" *)
+Theorem C10_Str_print_is_canonical : forall z, canonical (print z).
+Proof. exact print_canonical. Qed.
+Print Assumptions C10_Str_print_is_canonical.
+Theorem C10_Str_print_injective : forall a b, print a = print b -> a = b.
+Proof. exact print_inj. Qed.
+Print Assumptions C10_Str_print_injective.
+(* the canonical spelling of a value is unique: a canonical string that parses to z is print z; hence every accepted string is print z or
+   a non-canonical spelling of z (a '+', leading zeros, "-0") *)
+Theorem C10_canonical_spelling_is_print : forall s z, canonical s -> parse s = Some z -> s = print z.
+Proof. exact canonical_parse_print. Qed.
+Print Assumptions C10_canonical_spelling_is_print.
+Theorem C10_parsed_string_is_print_or_noncanonical : forall s z, parse s = Some z -> s = print z \/ ~ canonical s.
+Proof. exact parse_print_or_noncanonical. Qed.
+Print Assumptions C10_parsed_string_is_print_or_noncanonical.
+Theorem C10_Str_parse_of_print : forall z, int64_ok z = true -> parse (print z) = Some z.
+Proof. exact parse_print. Qed.
+Print Assumptions C10_Str_parse_of_print.
+(* Split / Join *)
+Theorem C10_join_of_split_is_identity : forall s, join (split s) = s.
+Proof. exact join_split_id. Qed.
+Print Assumptions C10_join_of_split_is_identity.
+Theorem C10_split_of_join_is_identity : forall l, l <> [] -> forallb noslash l = true -> split (join l) = l.
+Proof. exact split_join. Qed.
+Print Assumptions C10_split_of_join_is_identity.
+Theorem C10_split_field_count : forall s, length (split s) = S (count_slash s).
+Proof. exact split_length. Qed.
+Print Assumptions C10_split_field_count.
+Theorem C10_split_never_empty : forall s, split s <> [].
+Proof. exact split_nonempty. Qed.
+Print Assumptions C10_split_never_empty.
+Theorem C10_split_fields_have_no_slash : forall s, forallb noslash (split s) = true.
+Proof. exact split_fields_no_slash. Qed.
+Print Assumptions C10_split_fields_have_no_slash.
+(* run-time checkers of the six direct entries *)
+Theorem C10_checker_ParseInt : forall s obs, check_parseint s obs = true <->
+  match obs with Some z => ParseInt_accepts s z | None => forall z, ~ ParseInt_accepts s z end.
+Proof. exact check_parseint_sound. Qed.
+Print Assumptions C10_checker_ParseInt.
+Theorem C10_checker_FormatInt : forall z s, int64_ok z = true -> check_format z s = true <-> s = print z.
+Proof. exact check_format_sound. Qed.
+Print Assumptions C10_checker_FormatInt.
+Theorem C10_checker_Split : forall s o, check_split s o = true <-> o = split s.
+Proof. exact check_split_sound. Qed.
+Print Assumptions C10_checker_Split.
+Theorem C10_checker_Join : forall l o, check_join l o = true <-> o = join l.
+Proof. exact check_join_sound. Qed.
+Print Assumptions C10_checker_Join.
+
 (* ---- non-vacuity and witnesses ---- *)
 (* both round trips on concrete lists with x <> y <> f, negative f, duplicates *)
 Example C10_nonvacuous_round_trips :
@@ -304,3 +374,16 @@ Example C10_nonvacuous_script_and_aliasing :
   alias_model "3/1/2/4/-5" [SX 7; SZ 0] = Some (mk 3 7 2 4 0, mk 3 1 2 4 (-5), mk 3 1 2 4 (-5)) /\
   String.concat (bytes_to_string Generated.SpatialIDDelimiter) ["3"; "1"; "2"; "4"; "-5"]%string = "3/1/2/4/-5"%string.
 Proof. vm_compute. repeat split; reflexivity. Qed.
+(* the accepted language: witnesses on both sides *)
+Example C10_nonvacuous_ParseInt_language :
+  ParseInt_accepts "+007" 7 /\ ParseInt_accepts "-0" 0 /\ ParseInt_accepts "-9223372036854775808" (- 2 ^ 63) /\
+  map parse [""; "+"; "-"; "+-1"; "--1"; " 1"; "1 "; "0x10"; "1_0"; "9223372036854775808"; "-9223372036854775809"; "1.0"; "1e3"]%string
+    = [None; None; None; None; None; None; None; None; None; None; None; None; None] /\
+  parse "000000000000000000000000000009223372036854775807" = Some (2 ^ 63 - 1) /\
+  canonical "0" /\ canonical "-12" /\ ~ canonical "+1" /\ ~ canonical "007" /\ ~ canonical "-0" /\
+  split "/1//2/" = [""; "1"; ""; "2"; ""]%string /\ split "" = [""]%string /\ count_slash "/1//2/" = 4%nat.
+Proof.
+  repeat split; try (vm_compute; reflexivity); try (apply parse_spec; vm_compute; reflexivity);
+    try (apply canonicalb_spec; vm_compute; reflexivity);
+    try (intros C; apply canonicalb_spec in C; vm_compute in C; discriminate).
+Qed.
